@@ -528,5 +528,14 @@ func (r *Restarting) Apply(e *Env, s *State, op Op) []Finding {
 	write()
 	s.MarkDirty()
 	s.Last = "ok"
+	if ra, ok := r.Driver.(RestartAware); ok {
+		ra.Restarted(e, s)
+	}
 	return nil
+}
+
+// RestartAware is implemented by drivers whose module deliberately leaves something out of its export (closed
+// contracts, numbers already generated): the reference forgets exactly that when the restart operation ran.
+type RestartAware interface {
+	Restarted(e *Env, s *State)
 }
